@@ -451,14 +451,19 @@ func c05StagePurity(c *Ctx, r *Report, rulePrefix string) {
 
 func isStageLit(info *types.Info, fl *ast.FuncLit) bool {
 	sig, ok := info.TypeOf(fl).(*types.Signature)
-	if !ok || sig.Params().Len() != 1 || sig.Results().Len() != 1 {
+	if !ok || sig.Params().Len() != 1 || sig.Results().Len() < 1 {
 		return false
 	}
 	if !isKeyBuilderContext(sig.Params().At(0).Type()) {
 		return false
 	}
+	if sig.Results().Len() == 2 {
+		// typed stage: func(ctx) (T, bool) - evaluated per line by every worker like any other stage
+		b, ok := sig.Results().At(1).Type().Underlying().(*types.Basic)
+		return ok && b.Kind() == types.Bool
+	}
 	b, ok := sig.Results().At(0).Type().Underlying().(*types.Basic)
-	return ok && b.Kind() == types.String
+	return ok && sig.Results().Len() == 1 && b.Kind() == types.String
 }
 
 // ---------------------------------------------------------------- close discipline
